@@ -197,6 +197,30 @@ def run_and_validate(specs, procs=16):
     return tr, episodes, attach(tr, specs, episodes)
 
 
+def validate_suite_layers(timeout=1800):
+    """(T) the repository's own suite as a trace source for LAYER rules: run under /verif's second pytest plugin
+    (harness/pytest_plugin_layers.py wraps LayerRule.are_named / assert_applies from outside, in that pytest process
+    only), every evaluation of a complete layer rule is validated by Trace_Layers.  Skipped (and said so) when it cannot
+    be recorded - the check's own worlds do not depend on it."""
+    import json, os, subprocess, tempfile
+    try:
+        fd, out = tempfile.mkstemp(suffix=".ndjson", dir=tlc.scratch_root())
+        os.close(fd)
+        env = dict(os.environ, PYTESTARCH_VERIF_TRACE=out, PYTHONDONTWRITEBYTECODE="1")
+        env["PYTHONPATH"] = "/verif:" + env.get("PYTHONPATH", "")
+        subprocess.run(["/venv/bin/python", "-m", "pytest", "-q", "-p", "no:cacheprovider", "-p", "harness.pytest_plugin_layers",
+                        "--deselect", "tests/test_architecture.py"], cwd="/repo", env=env,
+                       stdout=subprocess.PIPE, stderr=subprocess.STDOUT, text=True, timeout=timeout)
+        meta = json.load(open(out + ".layers.meta"))
+        events = [json.loads(l) for l in open(out + ".layers")]
+        if meta["evaluations"] < 20:
+            raise RuntimeError(f"only {meta['evaluations']} layer-rule evaluations recorded")
+    except Exception as e:  # noqa: BLE001
+        return trace.TraceResult(), [], [], {"evaluations": 0, "skipped": {"suite layer trace not recorded": str(e)[:300]}}
+    tr = trace.validate([events], "Trace_Layers.tla", "Trace_Layers.cfg", procs=1)
+    return tr, [events], attach(tr, [{"driver": "suite-layers"}], [events]), meta
+
+
 def run(ctx):
     mc = model_check(small=ctx.quick)
     # the structural laws of C05 for arbitrary layer denotations, imports and rules (TLAPS); bound to LayerSem by
@@ -204,6 +228,9 @@ def run(ctx):
     proofs = tlc.tlaps_prove("LayerLaws.tla")
     specs, meta = specs_for(ctx)
     tr, episodes, fails = run_and_validate(specs)
+    # third trace source: the layer rules the repository's own suite evaluates
+    str_, sepisodes, sfails, smeta = validate_suite_layers()
+    fails = fails + sfails
     evals = [e for ep in episodes for e in ep if e["k"] == "leval"]
     laws = {}
     for ep in episodes:
@@ -217,7 +244,9 @@ def run(ctx):
     distinct = len({json.dumps([ep[0]["imports"], e["layers"], e["rule"]], sort_keys=True)
                     for ep in episodes for e in ep if e["k"] == "leval" and ep[0]["imports"]})
     cov = {"tlaps_obligations_proved": proofs["obligations"], "tlaps_wall_s": proofs["wall"],
-           "states": mc.distinct + tr.states, "transitions": mc.generated + tr.transitions,
+           "repository_suite_layer_rule_evaluations_validated": smeta.get("evaluations", 0),
+           "repository_suite_layer_rules_skipped": smeta.get("skipped", {}),
+           "states": mc.distinct + tr.states + str_.states, "transitions": mc.generated + tr.transitions + str_.transitions,
            "model_states": mc.distinct, "model_transitions": mc.generated,
            "traces_validated_against_impl": len(episodes), "trace_events": tr.events,
            "evaluations": len(evals), "outcomes": outs, "law_instances": laws, "distinct_nontrivial": distinct,
@@ -230,5 +259,8 @@ def run(ctx):
 
 
 def replay(ctx, rp):
+    if rp["spec"].get("driver") == "suite-layers":
+        tr, episodes, fails, _ = validate_suite_layers()
+        return CheckResult(fails=fails, coverage={"replayed_events": tr.events})
     tr, episodes, fails = run_and_validate([rp["spec"]], procs=1)
     return CheckResult(fails=fails, coverage={"replayed_events": tr.events})
